@@ -70,6 +70,9 @@ boost::optional<H5Group> GroupHDF5::findEntityGroup(const nix::Identity &ident) 
         g = boost::make_optional(p->openGroup(needle, false));
     } else if (haveName) {
         g = p->findGroupByAttribute("name", iname);
+    } else {
+        // not the id of a member: it may be a member's name that merely looks like an id
+        g = p->findGroupByAttribute("name", iid);
     }
 
     if (g && haveName && haveId) {
